@@ -125,6 +125,116 @@ Theorem C11_stats_double_count_refuted :
 Proof. exact stats_double_count_refuted. Qed.
 Print Assumptions C11_stats_double_count_refuted.
 
+(* ---- memory rebalancing: eviction and reload of micro indexes never change an answer ----
+   (model CmiEvict.v, proofs CmiEvictProofs.v; names qualified, Handover has its own Flush / run.)
+   The open segment keeps, per flushed block, the block's micro indexes (blooms, range indexes) in memory
+   while isCmiLoaded; writer.RebalanceUnrotatedMetadata removes them under memory pressure
+   (removeInMemoryMetadata: slice emptied, flag cleared), later flushes of the same segment add indexes only
+   while the flag is set (padding the slice with EMPTY maps up to the block number), and
+   doBloomCheckForCols / doRangeCheckForCols rule a block out when its entry cannot match.  Rotated segments
+   read their indexes from the .cmi files, in memory or not (metadata.RebalanceInMemoryCmi).
+   An execution is ANY list of Flush b | EvictOpen fits | Rotate | EvictRot | LoadRot.
+   [needs_passed q]: the record search of q looks only at the columns that PASSED the block check (a number
+   searched in all columns, `*=4`); [mark_unloaded]: an open segment without loaded indexes marks every column as
+   passed (the code since fix 7108dc6: true — the theorems below are stated for it, for EVERY query; before the
+   fix: false, see C11_prefix_all_column_search_without_indexes_refuted).
+   External: how a micro index is built and tested ([index_of], [may]) — hypothesis: an index built from a
+   block never rules out a block holding a match (bloom filters / min-max ranges have no false negatives). *)
+From SigM Require CmiEvict CmiEvictCheck.
+From SigP Require CmiEvictProofs.
+
+(* After every sequence of flushes, evictions (open and rotated side, with or without room), reloads and
+   rotations, every search — whether it asks the indexes (bloom or range check) or not, whether it looks only
+   at the passed columns or not — stays alive and returns exactly the matching events of all blocks flushed so
+   far, each once, in flush order. *)
+Theorem C11_eviction_search_exact :
+  forall (event query idx : Type) (matches : query -> event -> bool) (consults is_range : query -> bool)
+         (index_of : list event -> idx) (empty_idx : idx) (may : idx -> query -> bool)
+         (needs_passed : query -> bool),
+  (forall b q e, In e b -> matches q e = true -> may (index_of b) q = true) ->
+  forall (ops : list (CmiEvict.op event)) (q : query),
+  CmiEvict.search event query idx matches consults is_range index_of may needs_passed true
+    (CmiEvict.run event idx index_of empty_idx true ops (CmiEvict.init event idx)) q
+  = Some (filter (matches q) (concat (CmiEvict.flushed_blocks event ops))).
+Proof. exact CmiEvictProofs.fixed_search_exact. Qed.
+Print Assumptions C11_eviction_search_exact.
+
+(* Eviction never changes an answer: a rebalancing step (EvictOpen, EvictRot, LoadRot) inserted anywhere into
+   any execution leaves the answer of every later search as it is without it. *)
+Theorem C11_eviction_never_changes_an_answer :
+  forall (event query idx : Type) (matches : query -> event -> bool) (consults is_range : query -> bool)
+         (index_of : list event -> idx) (empty_idx : idx) (may : idx -> query -> bool)
+         (needs_passed : query -> bool),
+  (forall b q e, In e b -> matches q e = true -> may (index_of b) q = true) ->
+  forall (ops1 : list (CmiEvict.op event)) (e : CmiEvict.op event) (ops2 : list (CmiEvict.op event)) (q : query),
+  CmiEvictProofs.is_rebalance event e = true ->
+  CmiEvict.search event query idx matches consults is_range index_of may needs_passed true
+    (CmiEvict.run event idx index_of empty_idx true (ops1 ++ e :: ops2) (CmiEvict.init event idx)) q
+  = CmiEvict.search event query idx matches consults is_range index_of may needs_passed true
+    (CmiEvict.run event idx index_of empty_idx true (ops1 ++ ops2) (CmiEvict.init event idx)) q.
+Proof. exact CmiEvictProofs.fixed_eviction_transparent. Qed.
+Print Assumptions C11_eviction_never_changes_an_answer.
+
+(* Searching with the indexes = searching every (time-matching) block: in ANY state — reached by the
+   operations or not — whose loaded open segment holds the indexes of its own blocks and whose rotated
+   segments see their own indexes, in memory or from the files. *)
+Theorem C11_search_with_or_without_indexes :
+  forall (event query idx : Type) (matches : query -> event -> bool) (consults is_range : query -> bool)
+         (index_of : list event -> idx) (may : idx -> query -> bool)
+         (needs_passed : query -> bool),
+  (forall b q e, In e b -> matches q e = true -> may (index_of b) q = true) ->
+  forall (s : CmiEvict.st event idx) (q : query),
+  (forall r, In r (CmiEvict.rotated event idx s) ->
+     CmiEvict.rot_idx event idx index_of r = map index_of (CmiEvict.rblocks event idx r)) ->
+  (forall o, CmiEvict.open event idx s = Some o -> CmiEvict.loaded event idx o = true ->
+     CmiEvict.cmis event idx o = map index_of (CmiEvict.blocks event idx o)) ->
+  CmiEvict.search event query idx matches consults is_range index_of may needs_passed true s q
+  = Some (filter (matches q) (concat (CmiEvict.all_blocks event idx s))).
+Proof. exact CmiEvictProofs.fixed_indexes_optional. Qed.
+Print Assumptions C11_search_with_or_without_indexes.
+
+(* The hypothesis is satisfiable and the theorem applies to the instance the harness's op streams are
+   replayed on (event = id, index of a block = its ids, empty map = None; isearch = the code, every query). *)
+Theorem C11_eviction_instance_exact :
+  forall (ops : list CmiEvictCheck.iop) (q : CmiEvictCheck.iquery),
+  CmiEvictCheck.isearch (fold_left (CmiEvictCheck.istep true) ops CmiEvictCheck.iinit) q
+  = Some (filter (CmiEvictCheck.imatches q) (concat (CmiEvict.flushed_blocks N ops))).
+Proof. exact CmiEvictProofs.inst_search_exact_code. Qed.
+Print Assumptions C11_eviction_instance_exact.
+
+(* An eviction that empties the slice but leaves isCmiLoaded set ([clear_flag] = false) violates the property:
+   Flush [1]; EvictOpen; Flush [2] — the next flush pads the slice with an empty map for block 0, a
+   bloom-checked filter matching event 1 returns nothing (with the flag cleared: [1]); before that flush a
+   range-checked filter indexes the empty slice (blkNum > len lets blkNum = len through) and the process dies;
+   match-all searches and searches after the rotation are unaffected; with room (no eviction) both variants agree. *)
+Theorem C11_eviction_stale_flag_refuted :
+  let run c ops := fold_left (CmiEvictCheck.istep c) ops CmiEvictCheck.iinit in
+  let F := CmiEvict.Flush N in let E := CmiEvict.EvictOpen N in
+  CmiEvictCheck.isearch (run false [F [1%N]; E false; F [2%N]]) (true, false, false, [1%N]) = Some []
+  /\ CmiEvictCheck.isearch (run true [F [1%N]; E false; F [2%N]]) (true, false, false, [1%N]) = Some [1%N]
+  /\ CmiEvictCheck.isearch (run false [F [1%N]; E false]) (true, false, false, [1%N]) = Some [1%N]
+  /\ CmiEvictCheck.isearch (run false [F [1%N]; E false]) (true, true, false, [1%N]) = None
+  /\ CmiEvictCheck.isearch (run true [F [1%N]; E false]) (true, true, false, [1%N]) = Some [1%N]
+  /\ CmiEvictCheck.isearch (run false [F [1%N]; E false; F [2%N]]) (false, false, false, [1%N; 2%N]) = Some [1%N; 2%N]
+  /\ CmiEvictCheck.isearch (run false [F [1%N]; E false; F [2%N]; CmiEvict.Rotate N]) (true, false, false, [1%N]) = Some [1%N]
+  /\ CmiEvictCheck.isearch (run false [F [1%N]; E true; F [2%N]]) (true, false, false, [1%N]) = Some [1%N].
+Proof. exact CmiEvictProofs.stale_flag_refuted. Qed.
+Print Assumptions C11_eviction_stale_flag_refuted.
+
+(* The tree BEFORE fix 7108dc6 (mark_unloaded = false: an open segment without loaded indexes passed no column)
+   violated the statement: a query that searches only the passed columns (`*=4`) found nothing in an open segment
+   whose indexes were evicted — Flush [4]; EvictOpen: [] instead of [4]; since the fix (every column to check
+   counts as passed) [4]; before the eviction and after the rotation the old code was right too. *)
+Theorem C11_prefix_all_column_search_without_indexes_refuted :
+  let run ops := fold_left (CmiEvictCheck.istep true) ops CmiEvictCheck.iinit in
+  let F := CmiEvict.Flush N in let E := CmiEvict.EvictOpen N in
+  CmiEvictCheck.isearch_gen false (run [F [4%N]; E false]) (true, true, true, [4%N]) = Some []
+  /\ CmiEvictCheck.isearch_gen true (run [F [4%N]; E false]) (true, true, true, [4%N]) = Some [4%N]
+  /\ CmiEvictCheck.isearch_gen false (run [F [4%N]]) (true, true, true, [4%N]) = Some [4%N]
+  /\ CmiEvictCheck.isearch_gen false (run [F [4%N]; E false; CmiEvict.Rotate N]) (true, true, true, [4%N]) = Some [4%N].
+Proof. exact CmiEvictProofs.allcol_without_indexes_refuted. Qed.
+Print Assumptions C11_prefix_all_column_search_without_indexes_refuted.
+
 (* ---- "no deadlocks": the lock discipline of the hand-over lists ----
    Every step of the model above is one critical section of a reader/writer lock in the code
    (globalMetadata.updateLock, UnrotatedInfoLock, ...).  Go's sync.RWMutex prefers writers: once a
